@@ -69,6 +69,8 @@
 (*   "cacheable_last_child" a hint tree's cacheability is that of the LAST  *)
 (*                          child visited instead of the conjunction over   *)
 (*                          all children (tuple['A', int] becomes cacheable)*)
+(*   "clear_forgets_reftype" clear_caches() forgets the table of classes    *)
+(*                          that proxies use for issubclass()               *)
 (*   "clear_forgets_dedup"  clear_caches() forgets _hint_repr_to_hint      *)
 (*                          (on top of "repr_dedup": the decorated-class   *)
 (*                          path that 0.23.0 gets right must break)        *)
@@ -76,14 +78,15 @@
 EXTENDS Integers, Sequences, FiniteSets, TLC
 
 CONSTANTS Legacy,     \* set of strings, see above
-          Scope,      \* "repr" | "reprT" | "reprD" | "id" | "idT" | "idC" | "fail" | "conf" | "misc" | "mix" | "mixB" | "all": the slice of the universe explored
+          Scope,      \* "repr" | "reprT" | "reprD" | "id" | "idT" | "idC" | "fail" | "conf" | "misc" | "mix" | "mixB" | "tref" | "all": the slice of the universe explored
           MaxOps      \* history length bound
 
 (* ---------------------------------------------------------------- universe *)
-InitGen == [A |-> 0, B |-> 0, U |-> -1, D |-> 0, E |-> 0]     \* U is undefined at first (forward references)
-MaxGen  == [A |-> 1, B |-> 0, U |-> 0, D |-> 1, E |-> 0]
-ClassNames == {"A", "B", "U", "D", "E"}      \* E: the class that a SECOND module binds to the name "A"
-Decorated  == {"D"}          \* class D is itself @beartype-decorated: redefining it runs clear_caches()
+InitGen == [A |-> 0, B |-> 0, U |-> -1, D |-> 0, E |-> 0, W |-> -1]     \* U, W are undefined at first (forward references)
+MaxGen  == [A |-> 1, B |-> 0, U |-> 0, D |-> 1, E |-> 0, W |-> 1]
+ClassNames == {"A", "B", "U", "D", "E", "W"}      \* E: the class that a SECOND module binds to the name "A"
+Decorated  == {"D", "W"}     \* D, W are themselves @beartype-decorated: redefining them runs clear_caches()
+                             \* (W: defined late and then redefined -- referenced before it exists, used, rebound)
 
 Dsc(sh, n, sp) == [sh |-> sh, n |-> n, sp |-> sp]
 \* the catalogue: descriptor name -> how the hint is written
@@ -101,11 +104,14 @@ HD == TLCEval([cA |-> Dsc("cls", "A", 0),  cB |-> Dsc("cls", "B", 0),  cD |-> Ds
        \* module binding the name "A" to its own class E): the hints are equal, what they mean is not
        xF |-> Dsc("mxF", "A", 0),  xF2 |-> Dsc("mxF", "A", 1),          \* tuple['A', int]            (asked from either module)
        xL |-> Dsc("mxL", "A", 0),  xM |-> Dsc("mxM", "A", 0),            \* tuple[int, 'A'], tuple[int, 'A', int]
-       xD |-> Dsc("mxD", "A", 0),  xN |-> Dsc("mxN", "A", 0)])           \* dict['A', int], tuple['A', list[int]]
+       xD |-> Dsc("mxD", "A", 0),  xN |-> Dsc("mxN", "A", 0),            \* dict['A', int], tuple['A', list[int]]
+       \* type['W']: the subjects are CLASSES, checked by issubclass() against the proxy, which remembers the class in a
+       \* table of its own (_ref_proxy_to_resolved_type); 'W' goes through the other one (_ref_proxy_to_resolved_hint)
+       tW |-> Dsc("tref", "W", 0), rW |-> Dsc("ref", "W", 0)])
 MixShapes == {"mxF", "mxL", "mxM", "mxD", "mxN"}
 \* per child, in the order the code generator visits them: is that child's check expression cacheable?
 Kids(sh) == CASE sh \in {"mxF", "mxD", "mxN"} -> <<FALSE, TRUE>> [] sh = "mxL" -> <<TRUE, FALSE>> [] sh = "mxM" -> <<TRUE, FALSE, TRUE>>
-RefLikeSh(sh) == sh = "ref" \/ sh \in MixShapes
+RefLikeSh(sh) == sh \in {"ref", "tref"} \/ sh \in MixShapes
 
 In(s) == Scope \in s
 BearHDs == CASE In({"repr"})  -> {"lA", "uA0", "uA1", "cA"}
@@ -116,6 +122,7 @@ BearHDs == CASE In({"repr"})  -> {"lA", "uA0", "uA1", "cA"}
              [] In({"misc"})  -> {"eA0", "eA1", "L1", "LT"}       \* ==-equal spellings, ==-unequal look-alikes
              [] In({"mix"})   -> {"xF", "xF2", "xL", "xM"}
              [] In({"mixB"})  -> {"xD", "xN"}
+             [] In({"tref"})  -> {"tW"}
              [] In({"all"})   -> {"lA", "uA0", "uA1", "cA", "lD", "rU", "rA", "b1", "bT", "fl", "aA", "eA0", "eA1", "L1", "LT",
                                   "xF", "xF2", "xL"}
              [] OTHER         -> {}
@@ -127,6 +134,7 @@ DecoHDs == CASE In({"repr"})  -> {"lA", "uA0"}
              [] In({"misc"})  -> {"eA1"}
              [] In({"mix"})   -> {"xF", "xF2"}
              [] In({"mixB"})  -> {"xD"}
+             [] In({"tref"})  -> {"tW", "rW"}
              [] In({"all"})   -> {"lA", "uA0", "lD", "rU", "rA", "fl", "b1", "eA1", "xF"}
              [] OTHER         -> {}
 ConfsS  == IF In({"conf", "all"}) THEN {"c0", "c1"} ELSE {"c0"}     \* c1 = BeartypeConf(is_pep484_tower=True)
@@ -141,11 +149,11 @@ EqPairsS == CASE In({"id", "all"}) -> {<<"cA", "cB">>, <<"cA", "cA">>, <<"ob", "
               [] OTHER -> {}
 HoldHDs  == CASE In({"id", "all"}) -> {"aA", "cB"} [] In({"idT"}) -> {"aA"} [] OTHER -> {}
 LeHeldHDs == IF In({"id", "idT", "all"}) THEN {"cA"} ELSE {}
-RedefS  == CASE In({"repr", "reprT", "mix", "mixB"}) -> {"A"} [] In({"reprD"}) -> {"D"} [] In({"fail"}) -> {"U", "A"}
+RedefS  == CASE In({"repr", "reprT", "mix", "mixB"}) -> {"A"} [] In({"tref"}) -> {"W"} [] In({"reprD"}) -> {"D"} [] In({"fail"}) -> {"U", "A"}
              [] In({"all"}) -> {"A", "D", "U"} [] OTHER -> {}
-ClearS  == In({"repr", "reprT", "reprD", "id", "idC", "mix", "mixB", "all"})
+ClearS  == In({"repr", "reprT", "reprD", "id", "idC", "mix", "mixB", "tref", "all"})
 ProbeNames == CASE In({"repr", "reprT", "misc", "mixB"}) -> {"A"} [] In({"reprD"}) -> {"D"} [] In({"fail"}) -> {"A", "U"}
-                [] In({"mix"}) -> {"A", "E"} [] In({"all"}) -> {"A", "D", "U", "E"} [] OTHER -> {}
+                [] In({"mix"}) -> {"A", "E"} [] In({"tref"}) -> {"W"} [] In({"all"}) -> {"A", "D", "U", "E"} [] OTHER -> {}
 MaxFuncs == 2
 
 VARIABLES gen,      \* class name -> current generation (-1: name not defined yet)
@@ -175,10 +183,10 @@ ExprCacheable(h) ==
   Hashable(h) /\
   (IF h.sh \in MixShapes
    THEN LET k == Kids(h.sh) IN IF "cacheable_last_child" \in Legacy THEN k[Len(k)] ELSE \A i \in 1..Len(k) : k[i]
-   ELSE h.sh # "ref" \/ "cache_uncacheable" \in Legacy)
+   ELSE h.sh \notin {"ref", "tref"} \/ "cache_uncacheable" \in Legacy)
 \* the class a forward reference to name n means when asked from module m
 RN(n, m) == IF m = 1 THEN "E" ELSE n
-Resolved(sh, rn, g) == [sh |-> IF sh = "ref" THEN "cls" ELSE "mixr", n |-> rn, g |-> g]
+Resolved(sh, rn, g) == [sh |-> CASE sh = "ref" -> "cls" [] sh = "tref" -> "typr" [] OTHER -> "mixr", n |-> rn, g |-> g]
 \* the compiled value of a hint; for a forward reference g holds the module its proxy resolves in
 CV(h) == IF RefLike(h) THEN [sh |-> h.sh, n |-> h.n, g |-> h.sp] ELSE HKey(h)
 NeedsRes(cv) == RefLikeSh(cv.sh)
@@ -186,13 +194,15 @@ NeedsRes(cv) == RefLikeSh(cv.sh)
 (* ---------------------------------------- declarative semantics of a hint *)
 TT == [w |-> "T", n |-> "-", g |-> 0]                  \* the one "probe" of boolean answers
 \* "mix": the container the asking hint describes (tuple / dict ...) holding an instance at the forward reference's place
-Probes == {[w |-> w, n |-> n, g |-> g] : w \in {"bare", "list", "mix"}, n \in ProbeNames, g \in 0..1} \cup
+\* "type": the class object itself (the subject of type[...] hints)
+Probes == {[w |-> w, n |-> n, g |-> g] : w \in {"bare", "list", "mix", "type"}, n \in ProbeNames, g \in 0..1} \cup
           {[w |-> x, n |-> "-", g |-> 0] : x \in {"none", "int", "true", "float"}}      \* None, 1, True, 1.5
 Exists(p) == p.n \notin ClassNames \/ p.g <= gen[p.n]
 Sat(p, cv, conf) ==
   CASE cv.sh \in {"cls", "ann", "eqv"} -> p.w = "bare" /\ p.n = cv.n /\ p.g = cv.g
     [] cv.sh = "list" -> p.w = "list" /\ p.n = cv.n /\ p.g = cv.g
     [] cv.sh = "mixr" -> p.w = "mix" /\ p.n = cv.n /\ p.g = cv.g
+    [] cv.sh = "typr" -> p.w = "type" /\ p.n = cv.n /\ p.g = cv.g
     [] cv.sh = "uni"  -> (p.w = "bare" /\ p.n = cv.n /\ p.g = cv.g) \/ p.w = "none"
     [] cv.sh = "obj"  -> TRUE
     [] cv.sh = "flt"  -> p.w = "float" \/ (p.w \in {"int", "true"} /\ conf = "c1")       \* bool is an int
@@ -204,12 +214,15 @@ Ans(exc, acc) == [exc |-> exc, acc |-> acc]
 NoAns == Ans("none", {})
 Bool(b) == Ans("none", IF b THEN {TT} ELSE {})
 Accepted(cv, conf) == {p \in Probes : Exists(p) /\ Sat(p, cv, conf)}
+\* an unbound name raises when a check needs it; type['W'] needs it only for subjects that are classes, and while W is
+\* unbound no probe of this universe is one
+Unbound(sh) == IF sh = "tref" THEN Ans("none", {}) ELSE Ans("fwdref", {})
 \* what a compiled checker answers NOW; cv = [sh, n, g], with forward references resolved at the call
 Verdicts(cv, conf) ==
   CASE cv.sh = "raise" -> Ans("fwdref", {})
     [] cv.sh = "bad"   -> Ans("nonpep", {})
     [] NeedsRes(cv)    -> LET rn == RN(cv.n, cv.g) IN
-                          IF gen[rn] < 0 THEN Ans("fwdref", {}) ELSE Ans("none", Accepted(Resolved(cv.sh, rn, gen[rn]), conf))
+                          IF gen[rn] < 0 THEN Unbound(cv.sh) ELSE Ans("none", Accepted(Resolved(cv.sh, rn, gen[rn]), conf))
     [] OTHER -> Ans("none", Accepted(cv, conf))
 \* Fresh(q) for is_bearable / die_if_unbearable / a decorated call: the hint AS WRITTEN, empty tables
 FreshCheck(h, conf) == Verdicts(CV(h), conf)
@@ -306,30 +319,44 @@ Decorate(dn, conf) ==
           /\ UNCHANGED <<funcs, dedup, reprc, sane, expr>>
      ELSE LET co == TLCEval(Coerce(h, dedup, reprc))
               ce == TLCEval(CompileExpr(co.h, conf, sane, expr)) IN
-          /\ LET lazy == RefLike(h) /\ ~ExprCacheable(co.h) IN      \* a proxy of the callable's own, resolved at a call
-             funcs' = Append(funcs, [dn |-> dn, h |-> h, conf |-> conf, cv |-> IF lazy THEN CV(h) ELSE ce.cv,
-                                     \* (a name that is bound while decorating is resolved then; only unbound ones wait)
-                                     res |-> IF ~lazy THEN -2
-                                             ELSE IF gen[RN(h.n, h.sp)] >= 0 THEN gen[RN(h.n, h.sp)] ELSE -1])
+          /\ LET rn == RN(h.n, h.sp)
+                 own == RefLike(h) /\ ~ExprCacheable(co.h)      \* the reference is this callable's own business:
+                 lazy == own /\ gen[rn] < 0                      \*   unbound now: a proxy, resolved at a call that needs it
+                 eager == own /\ gen[rn] >= 0 IN                 \*   bound now: the class is substituted while decorating
+             funcs' = Append(funcs, [dn |-> dn, h |-> h, conf |-> conf,
+                                     cv |-> IF lazy THEN CV(h) ELSE IF eager THEN Resolved(h.sh, rn, gen[rn]) ELSE ce.cv,
+                                     res |-> IF lazy THEN -1 ELSE -2,      \* _ref_proxy_to_resolved_hint[proxy]  (-2: no proxy)
+                                     rt |-> -1,                            \* _ref_proxy_to_resolved_type[proxy]
+                                     cl |-> FALSE,                         \* clear_caches() ran since the proxy last resolved
+                                     dg |-> IF RefLike(h) THEN gen[rn] ELSE -2])   \* what the name meant when decorating
           /\ dedup' = co.dd /\ reprc' = co.rc /\ sane' = ce.sn /\ expr' = ce.ex
           /\ last' = Rec("decorate", dn, conf, NoAns, NoAns, TRUE, ce.hit, FALSE, co.swap)
   /\ UNCHANGED <<gen, tester, raiser, decreg>> /\ WrapUnch
 
-\* f(probe) for every probe object.  A forward reference that was unbound at decoration is resolved by the callable's
-\* proxy at the first call that needs it and then remembered (_ref_proxy_to_resolved_type).  Whether a callable decorated BEFORE a redefinition
-\* should follow the name or the object is C07's question: such calls are recorded but not judged.
+\* f(probe) for every probe object.  A proxy resolves its name at the first call that needs it and remembers the
+\* result: instance checks in _ref_proxy_to_resolved_hint, issubclass checks (type['W']) in _ref_proxy_to_resolved_type,
+\* which is consulted first and filled from the other.  clear_caches() empties both.  A proxy that resolved BEFORE its
+\* name was rebound and was not cleared since keeps the old class: whether it should is C07's question (not judged).
 Call(i) ==
   /\ Step /\ i \in 1..Len(funcs)
   /\ LET f == funcs[i] IN
      IF f.res = -2
-     THEN /\ last' = Rec("call", f.dn, f.conf, Verdicts(f.cv, f.conf), FreshCheck(f.h, f.conf), TRUE, FALSE, FALSE, FALSE)
+     THEN /\ last' = Rec("call", f.dn, f.conf, Verdicts(f.cv, f.conf),
+                         IF RefLike(f.h) /\ f.dg >= 0
+                         THEN Ans("none", Accepted(Resolved(f.h.sh, RN(f.h.n, f.h.sp), f.dg), f.conf))
+                         ELSE FreshCheck(f.h, f.conf),
+                         TRUE, FALSE, FALSE, FALSE)
           /\ UNCHANGED funcs
      ELSE LET n == RN(f.h.n, f.h.sp)
-              r == IF f.res >= 0 THEN f.res ELSE gen[n] IN
-          /\ funcs' = [funcs EXCEPT ![i].res = r]
+              viaType == f.h.sh = "tref"
+              stored == IF viaType /\ f.rt >= 0 THEN f.rt ELSE f.res
+              r == IF stored >= 0 THEN stored ELSE gen[n] IN
+          /\ funcs' = [funcs EXCEPT ![i].res = IF viaType /\ f.rt >= 0 THEN f.res ELSE r,
+                                    ![i].rt = IF viaType THEN r ELSE f.rt,
+                                    ![i].cl = IF stored >= 0 THEN f.cl ELSE FALSE]
           /\ last' = Rec("call", f.dn, f.conf,
-                         IF r < 0 THEN Ans("fwdref", {}) ELSE Ans("none", Accepted(Resolved(f.h.sh, n, r), f.conf)),
-                         FreshCheck(f.h, f.conf), r = gen[n], f.res >= 0, FALSE, FALSE)
+                         IF r < 0 THEN Unbound(f.h.sh) ELSE Ans("none", Accepted(Resolved(f.h.sh, n, r), f.conf)),
+                         FreshCheck(f.h, f.conf), r = gen[n] \/ f.cl, stored >= 0, FALSE, FALSE)
   /\ UNCHANGED <<gen, tester, raiser, dedup, reprc, sane, expr, decreg>> /\ WrapUnch
 
 (* ------------------------------------------------ wrappers and id-keyed tables *)
@@ -470,7 +497,10 @@ LeHeld(db) ==
 ClearEffect(who) ==
   /\ tester' = {} /\ raiser' = {} /\ expr' = {} /\ sane' = {} /\ wrap' = {}
   /\ dedup' = IF "clear_forgets_dedup" \in Legacy THEN dedup ELSE {}
-  /\ funcs' = [i \in 1..Len(funcs) |-> IF funcs[i].res >= 0 THEN [funcs[i] EXCEPT !.res = -1] ELSE funcs[i]]
+  /\ funcs' = [i \in 1..Len(funcs) |->
+                 IF funcs[i].res = -2 THEN funcs[i]
+                 ELSE [funcs[i] EXCEPT !.res = -1, !.cl = funcs[i].res >= 0 \/ funcs[i].rt >= 0 \/ funcs[i].cl,
+                                       !.rt = IF "clear_forgets_reftype" \in Legacy THEN @ ELSE -1]]
   /\ wobj' = Collect({}, held, wobj)
   /\ decreg' = IF "registry_wiped" \in Legacy THEN {who} ELSE decreg \cup {who}
   /\ UNCHANGED <<reprc, subt, eqt, held, nexta, nextu>>        \* callable_cached closures and id-keyed tables survive
